@@ -22,12 +22,16 @@ ID = "C14"
 PROPS = "Props/C14.v"
 EXTRACT = "extract/ExC14.v"
 OBLIGATION = "merkle-collect-history"
-THEOREMS = ["C14_inv_step", "C14_complete", "C14_idempotent", "C14_failed_op_is_noop", "C14_reset", "C14_reset_uncollects",
+THEOREMS = ["C14_inv_step", "C14_complete", "C14_idempotent", "C14_collected_has_hash", "C14_collect_nohash_refuted",
+            "C14_failed_op_is_noop", "C14_reset", "C14_reset_uncollects",
             "C14_uncollected_frame", "C14_collect_reports_uncollected", "C14_reset_partial",
             "C14_reset_partial_satisfiable", "C14_collect_early_refuted", "C14_write_force_collect",
             "C14_force_lazy_refuted", "C14_reports_sound",
             "C14_guards_satisfiable"]
-RULE = ("C10's deep chains (150..450 nodes exact, 1100/1500 recorded as chain-deeper-than-recursion-limit) and "
+RULE = ("collect as the very FIRST operation on freshly built and on freshly attached nodes, then mutations below "
+        "and a second collect, with no hash / swhid / entries / to_model / iter_tree / get_data read in between - "
+        "neither in the history nor by the runner, which never reads .hash of a collected node (it uses the "
+        "from-scratch hash, or the cached value without computing it); C10's deep chains (150..450 nodes exact, 1100/1500 recorded as chain-deeper-than-recursion-limit) and "
         "C10's histories (5-60 operations over <= 12 generic or Directory/Content nodes, DAGs with shared and "
         "structurally equal nodes) with collect / reset_collect at random nodes between mutations, reads and forced "
         "updates (resets at the root, at strict descendants and at shared nodes, followed later by collects from "
@@ -72,7 +76,7 @@ def gen(rng, tier):
     for k in range(n_cases):
         world = "mixed" if k % 10 == 9 else "generic" if k % 2 == 0 else "disk"
         nops = rng.randrange(5, 61)
-        c = base.gen_case(rng, world, nops, WEIGHTS, nscen=15, readall=(rng.random() < 0.2))
+        c = base.gen_case(rng, world, nops, WEIGHTS, nscen=16, readall=(rng.random() < 0.2))
         if rng.random() < 0.3:
             pre = detach_scenario(rng, world)
             sh = Shadow()
